@@ -390,7 +390,9 @@ func (job *CronJob) Once() bool {
 }
 
 func (c *Cron) run(ctx *core.Context, job *CronJob) {
-	core.Log(core.INFO|CRON, ctx, "Cron.run", "job", *job, "name", c.Name)
+	// (Not "job", *job: Rem and schedule write the job under the
+	// lock while we would be reading it here without.)
+	core.Log(core.INFO|CRON, ctx, "Cron.run", "jobId", job.Id, "name", c.Name)
 	once := job.Once()
 	err := job.Fn(time.Now())
 	if err != nil {
